@@ -409,6 +409,11 @@ func (self *_parser) parseObjectProperty() ast.Property {
 	if value == nil {
 		return nil
 	}
+	if _, private := value.(*ast.PrivateIdentifier); private {
+		// private names are class element names only
+		self.errorUnexpectedToken(token.PRIVATE_IDENTIFIER)
+		return nil
+	}
 	if token.IsId(tkn) || tkn == token.STRING || tkn == token.NUMBER || tkn == token.ILLEGAL {
 		if generator {
 			return &ast.PropertyKeyed{
@@ -448,6 +453,10 @@ func (self *_parser) parseObjectProperty() ast.Property {
 		case (literal == "get" || literal == "set" || tkn == token.ASYNC) && self.token != token.COLON:
 			_, _, keyValue, tkn1 := self.parseObjectPropertyKey()
 			if keyValue == nil {
+				return nil
+			}
+			if _, private := keyValue.(*ast.PrivateIdentifier); private {
+				self.errorUnexpectedToken(token.PRIVATE_IDENTIFIER)
 				return nil
 			}
 
@@ -982,7 +991,9 @@ func (self *_parser) parseRelationalExpression() ast.Expression {
 				Right:    self.parseShiftExpression(),
 			}
 		}
-		return left
+		// a private name is an expression only as the left operand of 'in'
+		self.error(left.Idx, "Unexpected private field")
+		return &ast.BadExpression{From: left.Idx, To: self.idx}
 	}
 	left := self.parseShiftExpression()
 
